@@ -214,8 +214,11 @@ def gen_atom(rng, opts):
         if c == 6:
             return ("cmp", "time", (("map", "plus1us"),), rng.choice(ops), ("T", rng.choice(GRID), rng.choice(OFFSETS)))
         return ("cmp", "tags", (rng.choice(TAG_KEYS), ("map", "raise")), "==", "a")
-    # noop
-    return ("noop", rng.choice(["time", "measurement", "tags", "fields"]))
+    # noop - also on a query that already names a key: it still matches every point
+    attr = rng.choice(["time", "measurement", "tags", "fields"])
+    if attr in ("tags", "fields") and rng.random() < 0.4:
+        return ("noop", attr, (rng.choice((TAG_KEYS if attr == "tags" else FIELD_KEYS) + ["nokey"]),))
+    return ("noop", attr)
 
 
 def gen_query(rng, max_depth=3, opts=None):
